@@ -420,9 +420,10 @@ Section FrameProofs.
     assert (Hbuf : exists cap got, match fr_buf st with Some x => x | None => (f_scratch, []) end = (cap, got) /\
                      fr_norm st = fr_norm (mkR cap got cr) /\
                      (blen got < f_hs -> cap = f_scratch) /\ (f_hs <= blen got -> blen got < cap)).
-    { destruct st as [[[cap got]|] e cr1]; cbn in *; subst e.
+    { destruct st as [[[cap got]|] e cr1]; cbn [fr_buf fr_err fr_cr] in *; subst e.
       - exists cap, got. repeat split; tauto.
-      - exists f_scratch, []. repeat split; auto. change (blen []) with 0. rewrite f_hs_is_8. lia. }
+      - exists f_scratch, []. split; [reflexivity|]. split; [reflexivity|]. split; [auto|].
+        change (blen []) with 0. rewrite f_hs_is_8. lia. }
     destruct Hbuf as (cap & got & -> & Hnorm & Hcap & Hgot). rewrite Hnorm. clear Hnorm Hwf.
     assert (Hpp : pipe <> [] -> 0 < blen pipe) by apply blen_pos.
     unfold f_header_phase.
@@ -489,9 +490,9 @@ Section FrameProofs.
     apply orb_false_iff in Estop. destruct Estop as [Emax Eerr]. specialize (Hwf Eerr).
     assert (Hbuf : exists cap got, match fr_buf st with Some x => x | None => (f_scratch, []) end = (cap, got) /\
                      (f_hs <= blen got -> blen got < cap)).
-    { destruct st as [[[cap got]|] e cr1]; cbn in *.
+    { destruct st as [[[cap got]|] e cr1]; cbn [fr_buf fr_err fr_cr] in *.
       - exists cap, got. split; tauto.
-      - exists f_scratch, []. split; auto. change (blen []) with 0. rewrite f_hs_is_8. lia. }
+      - exists f_scratch, []. split; [reflexivity|]. change (blen []) with 0. rewrite f_hs_is_8. lia. }
     destruct Hbuf as (cap & got & -> & Hgot).
     unfold f_header_phase.
     destruct (blen got <? f_hs) eqn:Ehdr.
@@ -569,5 +570,207 @@ Section FrameProofs.
     pose proof (f_turn_spec st maxb scr pipe outs Hwf) as Ht.
     destruct (f_turn st maxb scr pipe outs) as [st1 o1 p1|st1 maxb1 scr1 p1 o1]; [reflexivity|].
     cbn [turn_scr turn_res] in *. destruct Ht as (Hwf1 & _). subst f1. apply IH; auto. lia.
+  Qed.
+
+  (* ==================================================================== decoding a framed stream *)
+  (* The premise about the codec pair (FlattenHeaderAndMessage on one side,
+     UnflattenHeaderAndMessage on the other): starting from states in step, the sender's buffer
+     for a body m of the domain is header (size word, in-range encoding word) ++ payload, the
+     receiver turns that buffer back into m, and the states are in step again. *)
+  Variable sync : CS -> CR -> Prop.
+  Variable wfb : bytes -> Prop.
+  Hypothesis sync0 : sync cs0 cr0.
+  Hypothesis codec_sync : forall cs cr m, sync cs cr -> wfb m ->
+    exists payload enc cr',
+      snd (flat cs m) = le32 (blen payload) ++ le32 enc ++ payload /\
+      c_MUSCLE_MESSAGE_ENCODING_DEFAULT <= enc <= c_MUSCLE_MESSAGE_ENCODING_END_MARKER - 1 /\
+      blen payload <= max_in /\ f_hs + blen payload < two32 /\
+      unflat cr (snd (flat cs m)) = (cr', Some m) /\ sync (fst (flat cs m)) cr'.
+
+  Definition idle (cr : CR) : frecv := mkFR None false cr.
+
+  Lemma f_header_frame cap payload enc :
+    cap = f_scratch ->
+    c_MUSCLE_MESSAGE_ENCODING_DEFAULT <= enc <= c_MUSCLE_MESSAGE_ENCODING_END_MARKER - 1 ->
+    blen payload <= max_in -> f_hs + blen payload < two32 ->
+    f_header cap (le32 (blen payload) ++ le32 enc) = Some (f_hs + blen payload).
+  Proof.
+    intros -> He Hm Hs. unfold FrameModel.f_header.
+    assert (Eenc : rd32 (drop 4 (le32 (blen payload) ++ le32 enc)) = enc).
+    { change 4 with (blen (le32 (blen payload))). rewrite drop_app_exact.
+      rewrite <- (app_nil_r (le32 enc)). apply rd32_le32.
+      assert (c_MUSCLE_MESSAGE_ENCODING_END_MARKER < two32) by (vm_compute; reflexivity). lia. }
+    assert (Ebody : rd32 (le32 (blen payload) ++ le32 enc) = blen payload).
+    { apply rd32_le32. rewrite f_hs_is_8 in Hs. lia. }
+    rewrite Eenc, Ebody.
+    assert (E1 : (c_MUSCLE_MESSAGE_ENCODING_DEFAULT <=? enc) && (enc <=? c_MUSCLE_MESSAGE_ENCODING_END_MARKER - 1) = true) by lia.
+    rewrite E1. assert (E2 : (blen payload <=? max_in) = true) by lia. rewrite E2.
+    assert (E3 : (f_hs <? f_scratch) = true) by (vm_compute; reflexivity). rewrite E3.
+    destruct (blen payload <=? f_scratch - f_hs); [reflexivity|].
+    unfold u32. rewrite N.mod_small by exact Hs.
+    assert (E4 : (f_hs <=? f_hs + blen payload) = true) by lia. rewrite E4. reflexivity.
+  Qed.
+
+  Lemma f_feed_frame cs cr m : sync cs cr -> wfb m ->
+    exists cr', f_feed (idle cr) (snd (flat cs m)) = (idle cr', [m]) /\ sync (fst (flat cs m)) cr'.
+  Proof.
+    intros Hs Hm. destruct (codec_sync cs cr m Hs Hm) as (payload & enc & cr' & Hflat & Henc & Hmax & Hsz & Hun & Hs').
+    exists cr'. split; auto.
+    rewrite Hflat in *. rewrite app_assoc. rewrite f_feed_app.
+    assert (Hidle : idle cr = fr_norm (mkR f_scratch [] cr)) by reflexivity.
+    rewrite Hidle.
+    assert (Hhl : blen (le32 (blen payload) ++ le32 enc) = f_hs) by reflexivity.
+    rewrite (feed_hdr_exact (le32 (blen payload) ++ le32 enc) [] f_scratch cr eq_refl); [|discriminate|exact Hhl].
+    cbn [app]. unfold f_hdr_done. rewrite f_header_frame; auto. rewrite Hhl.
+    destruct (f_hs =? f_hs + blen payload) eqn:Ez.
+    - assert (payload = []) by (apply blen_0; lia). subst payload. rewrite !app_nil_r in *.
+      unfold f_done. unfold bytes, byte in *. rewrite Hun. reflexivity.
+    - assert (Hp : payload <> []) by (intros ->; change (blen []) with 0 in Ez; lia).
+      fold (mkR (f_hs + blen payload) (le32 (blen payload) ++ le32 enc) cr).
+      rewrite (feed_body_exact payload _ _ cr); auto; try (rewrite Hhl; lia).
+      unfold f_done. unfold bytes, byte in *. rewrite <- app_assoc, Hun. reflexivity.
+  Qed.
+
+  Lemma f_feed_wire ms : Forall wfb ms -> forall cs cr, sync cs cr ->
+    exists cr', f_feed (idle cr) (wire_from cs ms) = (idle cr', ms) /\ sync (cs_after cs ms) cr'.
+  Proof.
+    induction 1 as [|m t Hm _ IH]; intros cs cr Hs; cbn [wire_from cs_after].
+    - exists cr. auto.
+    - destruct (f_feed_frame cs cr m Hs Hm) as (cr1 & Hf1 & Hs1).
+      destruct (IH _ _ Hs1) as (cr2 & Hf2 & Hs2).
+      exists cr2. split; auto. rewrite f_feed_app, Hf1, Hf2. reflexivity.
+  Qed.
+
+  (* ==================================================================== end to end *)
+  Definition f_wire (ms : list bytes) : bytes := wire_from cs0 ms.
+  Definition f_RRel (r : frecv) (c : bytes) (o : list bytes) : Prop :=
+    fr_wf r /\ f_feed (idle cr0) c = (fr_norm r, o).
+
+  Definition f_sys0 := @sys0 bytes bytes fsend frecv (fs_init cs0) (fr_init cr0).
+  Notation f_run := (sys_run fs_queue f_do_output f_do_input).
+
+  Lemma f_S_init : fs_SI (fs_init cs0) [] /\ fs_rem (fs_init cs0) = [].
+  Proof. split; [|reflexivity]. split; [reflexivity|]. exists []. auto. Qed.
+
+  Lemma f_S_queue s ms m :
+    Forall wfb ms -> wfb m -> fs_SI s ms ->
+    fs_SI (fs_queue s m) (ms ++ [m]) /\
+    exists d, fs_rem (fs_queue s m) = fs_rem s ++ d /\ f_wire (ms ++ [m]) = f_wire ms ++ d.
+  Proof.
+    intros _ _ [Hwf (dn & Hms & Hcs)]. split.
+    - split; [exact Hwf|]. exists dn. cbn. split; [now rewrite Hms, app_assoc|exact Hcs].
+    - exists (snd (flat (cs_after cs0 ms) m)). split.
+      + unfold fs_rem. cbn [fs_queue fs_buf fs_off fs_q fs_cs]. rewrite wire_from_app, app_assoc.
+        cbn [wire_from]. rewrite app_nil_r. do 2 f_equal. rewrite Hms, cs_after_app, Hcs. reflexivity.
+      + unfold f_wire. rewrite wire_from_app. cbn [wire_from]. now rewrite app_nil_r.
+  Qed.
+
+  Lemma f_S_out s ms maxb scr s' x :
+    Forall wfb ms -> fs_SI s ms -> f_do_output s maxb scr = (s', x) ->
+    fs_SI s' ms /\ fs_rem s = x ++ fs_rem s'.
+  Proof. intros _. apply f_do_output_spec. Qed.
+
+  Lemma f_R_init : f_RRel (fr_init cr0) [] [].
+  Proof. split; [intros _; exact I|reflexivity]. Qed.
+
+  Lemma f_R_in (ms : list bytes) r c o maxb scr pipe (rest : bytes) r' o' pipe' :
+    Forall wfb ms -> f_wire ms = c ++ pipe ++ rest -> f_RRel r c o ->
+    f_do_input r maxb scr pipe = (r', o', pipe') ->
+    exists x, pipe = x ++ pipe' /\ f_RRel r' (c ++ x) (o ++ o').
+  Proof.
+    intros _ _ [Hwf Hc] H.
+    destruct (f_do_input_spec _ _ _ _ _ _ _ Hwf H) as (Hwf' & x & Hp & Hf).
+    exists x. split; auto. split; auto. rewrite f_feed_app, Hc, Hf. reflexivity.
+  Qed.
+
+  Lemma f_decode_prefix ms (r : frecv) c o (rest : bytes) :
+    Forall wfb ms -> f_wire ms = c ++ rest -> f_RRel r c o -> exists tl, ms = o ++ tl.
+  Proof.
+    intros Hwf Hw [_ Hc].
+    destruct (f_feed_wire ms Hwf cs0 cr0 sync0) as (cr' & Hall & _).
+    fold (f_wire ms) in Hall. rewrite Hw, f_feed_app, Hc in Hall.
+    destruct (f_feed (fr_norm r) rest) as [r2 o2]. inversion Hall. eauto.
+  Qed.
+
+  Lemma f_decode_complete ms (r : frecv) o :
+    Forall wfb ms -> f_RRel r (f_wire ms) o -> o ++ [] = ms.
+  Proof.
+    intros Hwf [_ Hc].
+    destruct (f_feed_wire ms Hwf cs0 cr0 sync0) as (cr' & Hall & _).
+    fold (f_wire ms) in Hall. rewrite Hc in Hall. inversion Hall. now rewrite app_nil_r.
+  Qed.
+
+  (* a receiver that has consumed a prefix of a well-formed stream is not in the error state *)
+  Lemma f_no_error ms (r : frecv) c o (rest : bytes) :
+    Forall wfb ms -> f_wire ms = c ++ rest -> f_RRel r c o -> fr_err r = false.
+  Proof.
+    intros Hwf Hw [_ Hc].
+    destruct (f_feed_wire ms Hwf cs0 cr0 sync0) as (cr' & Hall & _).
+    fold (f_wire ms) in Hall. rewrite Hw, f_feed_app, Hc in Hall.
+    destruct (fr_err r) eqn:He; auto.
+    assert (He' : fr_err (fr_norm r) = true).
+    { unfold fr_norm. destruct (fr_buf r) as [[? [|? ?]]|]; cbn; auto. }
+    rewrite (f_feed_err _ rest He') in Hall. inversion Hall as [[H1 H2]].
+    rewrite H1 in He'. discriminate.
+  Qed.
+
+  (* Every event list: the Messages delivered so far are a prefix, as a list of Messages, of the
+     Messages queued so far: nothing lost, duplicated, merged, split, reordered or altered. *)
+  Theorem frame_prefix_safety (evs : list (event bytes)) :
+    Forall (ev_wf wfb) evs ->
+    exists tl, ev_msgs evs = s_dlv (f_run f_sys0 evs) ++ tl.
+  Proof.
+    apply (prefix_safety fs_queue f_do_output f_do_input (fs_init cs0) (fr_init cr0) wfb f_wire
+             (fun ms : list bytes => ms) (fun o : list bytes => o) fs_rem fs_SI f_RRel);
+      [reflexivity | exact f_S_init | exact f_S_queue | exact f_S_out | exact f_R_init
+      | exact f_R_in | exact f_decode_prefix].
+  Qed.
+
+  Theorem frame_completeness (evs : list (event bytes)) :
+    Forall (ev_wf wfb) evs ->
+    fs_rem (s_snd (f_run f_sys0 evs)) = [] -> s_pipe (f_run f_sys0 evs) = [] ->
+    s_dlv (f_run f_sys0 evs) = ev_msgs evs.
+  Proof.
+    intros Hf Hr Hp.
+    pose proof (completeness fs_queue f_do_output f_do_input (fs_init cs0) (fr_init cr0) wfb f_wire
+             (fun ms : list bytes => ms) (fun o : list bytes => o) (fun _ => []) fs_rem fs_SI f_RRel
+             eq_refl f_S_init f_S_queue f_S_out f_R_init f_R_in f_decode_complete evs Hf Hr Hp) as H.
+    now rewrite app_nil_r in H.
+  Qed.
+
+  Theorem frame_fair_completion (evs : list (event bytes)) (rs : list (list (event bytes))) :
+    Forall (ev_wf wfb) evs -> Forall round rs ->
+    (measure fs_rem (fun _ => 0%nat) (f_run f_sys0 evs) <= length rs)%nat ->
+    let st := f_run f_sys0 (evs ++ concat rs) in
+    quiet fs_rem st /\ s_dlv st = ev_msgs evs.
+  Proof.
+    intros Hf Hr Hm.
+    pose proof (fair_completion fs_queue f_do_output f_do_input (fs_init cs0) (fr_init cr0) wfb f_wire
+             (fun ms : list bytes => ms) (fun o : list bytes => o) (fun _ => []) fs_rem fs_SI f_RRel
+             eq_refl f_S_init f_S_queue f_S_out f_R_init f_R_in f_decode_complete (fun _ => 0%nat)) as H.
+    cbv zeta in *. rewrite <- (app_nil_r (s_dlv _)). apply H; auto.
+    - intros s ms maxb scr s' x _ Hs Ho. split; [lia|]. intros Hrem Hmx Hk. left.
+      exact (f_do_output_progress ms s maxb scr s' x Hs Hrem Hmx Hk Ho).
+    - intros ms r c o maxb scr pipe rest r' o' pipe' Hwf Hw Hc Hi Hne Hmx Hk.
+      pose proof (f_no_error ms r c o (pipe ++ rest) Hwf Hw Hc) as He.
+      destruct Hc as [Hwfr _].
+      exact (f_do_input_progress r maxb scr pipe r' o' pipe' Hwfr He Hmx Hk Hne Hi).
+  Qed.
+
+  (* the receiver is back in its idle state (no partial Message buffered) once everything sent
+     has been consumed *)
+  Theorem frame_receiver_idle (evs : list (event bytes)) :
+    Forall (ev_wf wfb) evs ->
+    fs_rem (s_snd (f_run f_sys0 evs)) = [] -> s_pipe (f_run f_sys0 evs) = [] ->
+    exists cr', fr_norm (s_rcv (f_run f_sys0 evs)) = idle cr'.
+  Proof.
+    intros Hf Hr Hp.
+    destruct (sys_inv_run fs_queue f_do_output f_do_input wfb f_wire fs_rem fs_SI f_RRel
+                f_S_queue f_S_out f_R_in evs f_sys0
+                (sys_inv_init (fs_init cs0) (fr_init cr0) wfb f_wire fs_rem fs_SI f_RRel eq_refl f_S_init f_R_init) Hf)
+      as (Hwf & _ & c & Hw & [_ Hc]).
+    rewrite Hr, Hp in Hw. cbn [app] in Hw. rewrite app_nil_r in Hw. subst c.
+    destruct (f_feed_wire _ Hwf cs0 cr0 sync0) as (cr' & Hall & _).
+    fold (f_wire (s_sent (f_run f_sys0 evs))) in Hall. rewrite Hc in Hall. inversion Hall. eauto.
   Qed.
 End FrameProofs.
